@@ -234,6 +234,10 @@ pub fn script_for(focus: &str) -> Option<Vec<ScriptOp>> {
         // more than the elision threshold under the OTHER slot (the emptied slot is written while its sibling is still a terminator;
         // the page stays stored), back and forth, across a reopen
         "script-clear-then-change" => Some(vec![Fill(40, 40), FlipCluster(25, 0), FlipCluster(25, 1), FlipCluster(23, 0), Reopen, FlipCluster(26, 1), FlipCluster(21, 0)]),
+        // stored pages are CLEARED (tombstoned) by a commit: a cluster well above the elision threshold is deleted entirely, rebuilt and
+        // deleted again after a reopen — with a crash between the manifest write and the table write-out the tombstones exist only in the
+        // redo log, and recovery must persist them (seeded change `C10-recover-clear-tombstone-not-written`)
+        "script-clear-pages" => Some(vec![Fill(40, 40), FillCluster(30), DeleteCluster(30), FillCluster(25), Reopen, DeleteCluster(25), FillCluster(3)]),
         "script-elision-threshold" => Some(vec![Fill(40, 40), FillCluster(19), FillCluster(2), DeleteCluster(4), FillCluster(6), Reopen, FillCluster(1), DeleteCluster(9), FillCluster(12)]),
         _ => None,
     }
